@@ -22,6 +22,7 @@
 import json
 import os
 import sys
+import time
 import warnings
 from fractions import Fraction
 
@@ -131,7 +132,9 @@ def run(chk, replay=None):
     # tools_seeded.py of concurrent runs: after the build make sure that what was built is what was generated
     # from THIS source tree, otherwise rewrite and build again.
     rewrites = 0
-    for attempt in range(4):
+    for attempt in range(6):
+        if attempt:
+            time.sleep(5 + 10 * attempt)      # let the concurrent run that overwrote the files finish its build
         write_generated()
         broken = chk.lean(['Lcapy/Props/C08.lean', 'Lcapy/Props/C08Net.lean'],
                           helper_files=['Lcapy/Proofs/TwoPortBase.lean', 'Lcapy/Proofs/TwoPortNet.lean', 'Lcapy/Spec/TwoPort.lean',
@@ -143,7 +146,7 @@ def run(chk, replay=None):
             break
         rewrites += 1
     else:
-        raise common.Infra('generated Lean files keep being overwritten by concurrent runs (4 attempts)')
+        raise common.Infra('generated Lean files keep being overwritten by concurrent runs (6 attempts)')
     chk.coverage['translator']['rewritten_after_concurrent_overwrite'] = rewrites
     drv = chk.get_driver()
     L = LcapyTP()
